@@ -11,7 +11,82 @@ open KMap
 theorem Dec.mul_zero_left (r : Dec) : Dec.mul Dec.zero r = Dec.zero := by
   apply Dec.ext'; simp [Dec.mul, Dec.zero]
 
-/-- the complete effect of an accepted slash of validator `v` by `p` -/
+/-- Σ over the records of validator `v` of the share scaled by `rem` (each product rounded down at 10^-18) -/
+def scaledTotal (stakes : KMap (Addr × String) Shares) (v : String) (rem : Dec) : Nat :=
+  ((stakes.filter fun p => p.1.2 = v).map (fun p => (Dec.mul p.2.stake rem).atomics)).sum
+
+theorem scaledTotal_cons (p : (Addr × String) × Shares) (m : KMap (Addr × String) Shares) (v : String) (rem : Dec) :
+    scaledTotal (p :: m) v rem = (if p.1.2 = v then (Dec.mul p.2.stake rem).atomics else 0) + scaledTotal m v rem := by
+  unfold scaledTotal
+  by_cases h : p.1.2 = v <;> simp [List.filter_cons, h]
+
+theorem scaledTotal_mapVal (m : KMap (Addr × String) Shares) (F : Addr × String → Shares → Shares) (w : String)
+    (rem : Dec) (hF : ∀ k sh, (F k sh).stake = sh.stake) :
+    scaledTotal (m.map fun p => (p.1, F p.1 p.2)) w rem = scaledTotal m w rem := by
+  induction m with
+  | nil => rfl
+  | cons p m ih =>
+    simp only [List.map_cons, scaledTotal_cons, ih, hF]
+
+theorem le_scaledTotal {m : KMap (Addr × String) Shares} {d : Addr} {v : String} {sh : Shares} (rem : Dec)
+    (h : get? m (d, v) = some sh) : (Dec.mul sh.stake rem).atomics ≤ scaledTotal m v rem := by
+  induction m with
+  | nil => simp at h
+  | cons p m ih =>
+    obtain ⟨k', sh'⟩ := p
+    rw [get?_cons] at h
+    rw [scaledTotal_cons]
+    by_cases e : k' = (d, v)
+    · simp only [e, ite_true, Option.some.injEq] at h; subst h; subst e; simp
+    · simp only [e, ite_false] at h
+      have := ih h; omega
+
+/-- the sum of the shares after scaling all records of `v` (all owned by `l`) is the scaled total -/
+theorem shareSum_scaleAll_self (m : KMap (Addr × String) Shares) (v : String) (l : List Addr) (rem : Dec)
+    (h : ∀ p ∈ m, p.1.2 = v → p.1.1 ∈ l) : shareSum (scaleAll m v l rem) v = scaledTotal m v rem := by
+  induction m with
+  | nil => rfl
+  | cons p m ih =>
+    have ih' := ih (fun q hq => h q (List.mem_cons_of_mem _ hq))
+    have hp := h p List.mem_cons_self
+    have e : scaleAll (p :: m) v l rem =
+        (p.1, if p.1.2 = v ∧ p.1.1 ∈ l then { p.2 with stake := Dec.mul p.2.stake rem } else p.2) :: scaleAll m v l rem := rfl
+    rw [e, shareSum_cons, scaledTotal_cons, ih']
+    by_cases e2 : p.1.2 = v
+    · simp [e2, hp e2]
+    · simp [e2]
+
+theorem scaledTotal_creditAll (stakes : KMap (Addr × String) Shares) (v : String) (vi : ValInfo) (nr : Dec)
+    (w : String) (rem : Dec) : scaledTotal (creditAll stakes v vi nr) w rem = scaledTotal stakes w rem := by
+  unfold creditAll
+  exact scaledTotal_mapVal _ (fun k sh => if k.2 = v ∧ k.1 ∈ vi.stakers then
+    { sh with rewards := Dec.add sh.rewards (shareOfRewards sh vi nr) } else sh) w rem
+    (by intro k sh; split <;> rfl)
+
+/-- crediting rewards does not change the scaled total -/
+theorem updR_scaled {s s' : SState} {now : Nat} {v : String} (h : updateRewards s now v = .ok s') (w : String) (rem : Dec) :
+    scaledTotal s'.stakes w rem = scaledTotal s.stakes w rem := by
+  unfold updateRewards at h
+  split at h
+  · simp at h
+  · split at h
+    · simp at h
+    · split at h
+      · simp only [Outcome.ok.injEq] at h; subst h; rfl
+      · split at h
+        · split at h
+          · simp only [Outcome.ok.injEq] at h; subst h; rfl
+          · split at h
+            · simp only [Outcome.ok.injEq] at h; subst h
+              exact scaledTotal_creditAll _ _ _ _ _ _
+            · simp at h
+        · simp at h
+        · simp at h
+        · simp at h
+
+/-- the complete effect of an accepted slash of validator `v` by `p` (code as fixed by c602f29): every share is
+scaled, the validator total becomes the whole tokens of the sum of the scaled shares, and only when that is zero —
+i.e. when all scaled shares together are worth less than one token — the records are dropped -/
 structure SlashEffect (c : Chain) (v : String) (p : Dec) (c' : Chain) : Prop where
   pct_le : p ≤ Dec.one
   known : ∃ vo, c.st.validator? v = some vo
@@ -24,9 +99,10 @@ structure SlashEffect (c : Chain) (v : String) (p : Dec) (c' : Chain) : Prop whe
   other_records : ∀ k : Addr × String, k.2 ≠ v → get? c'.st.stakes k = get? c.st.stakes k
   other_validators : ∀ w, w ≠ v → get? c'.st.vinfo w = get? c.st.vinfo w
   total : ∃ vi vi', get? c.st.vinfo v = some vi ∧ get? c'.st.vinfo v = some vi' ∧
-      vi'.stake = Dec.mulFloor vi.stake (remOf p) ∧
-      (Dec.mulFloor vi.stake (remOf p) ≠ 0 → ∀ d, stakeOf c'.st d v = Dec.mul (stakeOf c.st d v) (remOf p)) ∧
-      (Dec.mulFloor vi.stake (remOf p) = 0 → ∀ d, get? c'.st.stakes (d, v) = none)
+      vi'.stake = scaledTotal c.st.stakes v (remOf p) / Dec.ONE ∧
+      (vi'.stake ≠ 0 → (∀ d, stakeOf c'.st d v = Dec.mul (stakeOf c.st d v) (remOf p)) ∧
+                        vi'.stake = shareSum c'.st.stakes v / Dec.ONE ∧ vi'.stakers = vi.stakers) ∧
+      (vi'.stake = 0 → (∀ d, get? c'.st.stakes (d, v) = none) ∧ scaledTotal c.st.stakes v (remOf p) < Dec.ONE)
 
 theorem slash_effect {c c' : Chain} {v : String} {p : Dec} (hi : SInv c.st) (h : sudoSlash c v p = .ok c') :
     SlashEffect c v p c' := by
@@ -49,52 +125,64 @@ theorem slash_effect {c c' : Chain} {v : String} {p : Dec} (hi : SInv c.st) (h :
           intro k hk
           obtain ⟨F, hF, _, hid⟩ := ur.stakes k
           rw [hF]; cases get? c.st.stakes k <;> simp [hid hk]
+        have hsum : sumShares (scaleAll s1.stakes v vi1.stakers (remOf p)) v vi1.stakers
+            = scaledTotal c.st.stakes v (remOf p) := by
+          rw [sumShares_eq_shareSum _ _ _ (owners_listed_scaled hi1 hvi1 vi1.stakers (remOf p)),
+            shareSum_scaleAll_self _ _ _ _ (owners_listed hi1 hvi1), updR_scaled h1]
         unfold applySlash at hst
+        rw [hsum] at hst
         split at hst
-        · rename_i hz
-          simp only [Outcome.ok.injEq] at hst; subst hst
-          refine ⟨Dec.le_of_not_lt hp, ur.valid, rfl, rfl, ur.withdraw, ur.info, ur.validators, by simp [ur.queue], ?_, ?_,
-            ⟨vi, _, hvi, get?_set_self _ _ _, ?_, ?_, ?_⟩⟩
-          · intro k hk
-            simp only [get?_removeAll, hk, false_and, ite_false]; exact hother k hk
-          · intro w hw; simp only [get?_set_ne _ _ hw]; exact ur.vinfo_other w hw
-          · simp only [← hstake, hz]
-          · intro hnz; rw [← hstake] at hnz; exact absurd hz hnz
-          · intro _ d
-            simp only [get?_removeAll, true_and]
-            split
-            · rfl
-            · rename_i hnot
-              cases hg : get? s1.stakes (d, v) with
-              | none => rfl
-              | some sh =>
-                obtain ⟨vi2, hv2, hd⟩ := hi1.stakes_listed d v sh hg
-                rw [hvi1] at hv2; simp only [Option.some.injEq] at hv2; subst hv2
-                exact absurd hd hnot
-        · rename_i hnz
-          split at hst
-          · simp only [Outcome.ok.injEq] at hst; subst hst
+        · split at hst
+          · rename_i hz
+            simp only [Outcome.ok.injEq] at hst; subst hst
             refine ⟨Dec.le_of_not_lt hp, ur.valid, rfl, rfl, ur.withdraw, ur.info, ur.validators, by simp [ur.queue], ?_, ?_,
               ⟨vi, _, hvi, get?_set_self _ _ _, ?_, ?_, ?_⟩⟩
+            · intro k hk
+              simp only [get?_removeAll, hk, false_and, ite_false]; exact hother k hk
+            · intro w hw; simp only [get?_set_ne _ _ hw]; exact ur.vinfo_other w hw
+            · simp only [hz]
+            · intro hnz; exact absurd rfl hnz
+            · intro _
+              refine ⟨?_, ?_⟩
+              · intro d
+                simp only [get?_removeAll, true_and]
+                split
+                · rfl
+                · rename_i hnot
+                  cases hg : get? s1.stakes (d, v) with
+                  | none => rfl
+                  | some sh =>
+                    obtain ⟨vi2, hv2, hd⟩ := hi1.stakes_listed d v sh hg
+                    rw [hvi1] at hv2; simp only [Option.some.injEq] at hv2; subst hv2
+                    exact absurd hd hnot
+              · have := Nat.lt_div_mul_add (a := scaledTotal c.st.stakes v (remOf p)) Dec.ONE_pos
+                rw [hz] at this; simpa using this
+          · rename_i hnz
+            simp only [Outcome.ok.injEq] at hst; subst hst
+            refine ⟨Dec.le_of_not_lt hp, ur.valid, rfl, rfl, ur.withdraw, ur.info, ur.validators, by simp [ur.queue], ?_, ?_,
+              ⟨vi, _, hvi, get?_set_self _ _ _, rfl, ?_, ?_⟩⟩
             · intro k hk
               simp only [get?_scaleAll, hk, false_and, ite_false]
               rw [hother k hk]; cases get? c.st.stakes k <;> rfl
             · intro w hw; simp only [get?_set_ne _ _ hw]; exact ur.vinfo_other w hw
-            · simp only [← hstake]
-            · intro _ d
-              rw [← stakeOf_updR ur d v]
-              unfold stakeOf curShares
-              simp only [get?_scaleAll, true_and]
-              cases hg : get? s1.stakes (d, v) with
-              | none =>
-                simp only [Option.map_none, Option.getD_none, Shares.dflt]
-                exact (Dec.mul_zero_left _).symm
-              | some sh =>
-                obtain ⟨vi2, hv2, hd⟩ := hi1.stakes_listed d v sh hg
-                rw [hvi1] at hv2; simp only [Option.some.injEq] at hv2; subst hv2
-                simp [hd]
-            · intro hz; rw [← hstake] at hz; exact absurd hz hnz
-          · simp at hst
+            · intro _
+              refine ⟨?_, ?_, hstk⟩
+              · intro d
+                rw [← stakeOf_updR ur d v]
+                unfold stakeOf curShares
+                simp only [get?_scaleAll, true_and]
+                cases hg : get? s1.stakes (d, v) with
+                | none =>
+                  simp only [Option.map_none, Option.getD_none, Shares.dflt]
+                  exact (Dec.mul_zero_left _).symm
+                | some sh =>
+                  obtain ⟨vi2, hv2, hd⟩ := hi1.stakes_listed d v sh hg
+                  rw [hvi1] at hv2; simp only [Option.some.injEq] at hv2; subst hv2
+                  simp [hd]
+              · simp only
+                rw [shareSum_scaleAll_self _ _ _ _ (owners_listed hi1 hvi1), updR_scaled h1]
+            · intro hz; exact absurd hz hnz
+        · simp at hst
       · simp at hst
       · simp at hst
       · simp at hst
@@ -102,18 +190,39 @@ theorem slash_effect {c c' : Chain} {v : String} {p : Dec} (hi : SInv c.st) (h :
     · simp at h
     · simp at h
 
-/-- C16 scales_down / never increases: records, shown delegations, validator total and pending unbondings -/
+/-- C16 scales_down, exact form: unless the new validator total is zero every delegation becomes exactly
+`mul(share, 1−p)`; if it is zero all delegations of `v` are dropped and together they were worth less than one token
+after scaling (so each of them, too: only sub-token remainders are lost) -/
+theorem slash_scales_exact {c c' : Chain} {v : String} {p : Dec} (hi : SInv c.st) (h : sudoSlash c v p = .ok c') :
+    (scaledTotal c.st.stakes v (remOf p) / Dec.ONE ≠ 0 →
+        ∀ d, stakeOf c'.st d v = Dec.mul (stakeOf c.st d v) (remOf p)) ∧
+    (scaledTotal c.st.stakes v (remOf p) / Dec.ONE = 0 →
+        scaledTotal c.st.stakes v (remOf p) < Dec.ONE ∧
+        ∀ d, stakeOf c'.st d v = Dec.zero ∧ (Dec.mul (stakeOf c.st d v) (remOf p)).atomics < Dec.ONE) := by
+  have ef := slash_effect hi h
+  obtain ⟨vi, vi', _, _, hT, hnz, hz⟩ := ef.total
+  constructor
+  · intro hne; exact (hnz (by rw [hT]; exact hne)).1
+  · intro he
+    obtain ⟨hnone, hlt⟩ := hz (by rw [hT]; exact he)
+    refine ⟨hlt, fun d => ⟨by simp [stakeOf, curShares, hnone d, Shares.dflt], ?_⟩⟩
+    unfold stakeOf curShares
+    cases hg : get? c.st.stakes (d, v) with
+    | none => simp [Shares.dflt, Dec.mul, Dec.zero]; exact Dec.ONE_pos
+    | some sh =>
+      have := le_scaledTotal (remOf p) hg
+      simp only [Option.getD_some]; omega
+
+/-- C16 never increases: records and shown delegations -/
 theorem slash_scales_down {c c' : Chain} {v : String} {p : Dec} (hi : SInv c.st) (h : sudoSlash c v p = .ok c') (d : Addr) :
     stakeOf c'.st d v ≤ Dec.mul (stakeOf c.st d v) (remOf p) ∧ stakeOf c'.st d v ≤ stakeOf c.st d v ∧
     (stakeOf c'.st d v).floor ≤ (stakeOf c.st d v).floor := by
-  have ef := slash_effect hi h
-  obtain ⟨vi, vi', _, _, _, hnz, hz⟩ := ef.total
+  have ex := slash_scales_exact hi h
   have hle : Dec.mul (stakeOf c.st d v) (remOf p) ≤ stakeOf c.st d v := Dec.mul_le_left _ _ (remOf_le p)
   have h1 : stakeOf c'.st d v ≤ Dec.mul (stakeOf c.st d v) (remOf p) := by
-    by_cases e : Dec.mulFloor vi.stake (remOf p) = 0
-    · have : stakeOf c'.st d v = Dec.zero := by simp [stakeOf, curShares, hz e d, Shares.dflt]
-      rw [this, Dec.le_def]; exact Nat.zero_le _
-    · rw [hnz e d, Dec.le_def]; exact Nat.le_refl _
+    by_cases e : scaledTotal c.st.stakes v (remOf p) / Dec.ONE = 0
+    · rw [((ex.2 e).2 d).1, Dec.le_def]; exact Nat.zero_le _
+    · rw [ex.1 e d, Dec.le_def]; exact Nat.le_refl _
   refine ⟨h1, ?_, ?_⟩
   · rw [Dec.le_def] at *; omega
   · rw [Dec.le_def] at *
@@ -123,14 +232,20 @@ theorem slash_scales_down {c c' : Chain} {v : String} {p : Dec} (hi : SInv c.st)
 theorem mem_slashQueue_amount {q : List Unbonding} {v : String} {rem : Dec} :
     slashQueue q v rem = q.map fun u => if u.validator = v then { u with amount := Dec.mulFloor u.amount rem } else u := rfl
 
+theorem scaledTotal_zero_rem (m : KMap (Addr × String) Shares) (v : String) (rem : Dec) (h : rem.atomics = 0) :
+    scaledTotal m v rem = 0 := by
+  induction m with
+  | nil => rfl
+  | cons p m ih => rw [scaledTotal_cons, ih]; simp [Dec.mul, h]
+
 /-- C16 full_slash: `p = 1` removes every delegation to `v` (and empties its pending unbondings) -/
 theorem slash_full {c c' : Chain} {v : String} (hi : SInv c.st) (h : sudoSlash c v Dec.one = .ok c') :
     (∀ d, get? c'.st.stakes (d, v) = none) ∧ (∀ u ∈ c'.st.queue, u.validator = v → u.amount = 0) := by
   have ef := slash_effect hi h
-  obtain ⟨vi, vi', _, _, _, _, hz⟩ := ef.total
+  obtain ⟨vi, vi', _, _, hT, _, hz⟩ := ef.total
   have hrem : (remOf Dec.one).atomics = 0 := by simp [remOf, Dec.sub, Dec.one]
   have hmf : ∀ n, Dec.mulFloor n (remOf Dec.one) = 0 := by intro n; simp [Dec.mulFloor, hrem]
-  refine ⟨hz (hmf _), ?_⟩
+  refine ⟨(hz (by rw [hT, scaledTotal_zero_rem _ _ _ hrem]; simp)).1, ?_⟩
   intro u hu hv
   rw [ef.queue, mem_slashQueue_amount, List.mem_map] at hu
   obtain ⟨u0, _, rfl⟩ := hu
@@ -149,34 +264,33 @@ theorem slash_rejects {c : Chain} {v : String} {p : Dec} (hi : SInv c.st)
   · have := ef.pct_le; rw [Dec.le_def] at this; rw [Dec.lt_def] at hb; omega
   · obtain ⟨vo, hvo⟩ := ef.known; rw [hb] at hvo; simp at hvo
 
-/-- C16 exact_when_whole: a whole delegation `n` (not above the validator total) whose scaled value is the whole
-number `m` becomes exactly `m`; likewise the validator total -/
+/-- C16 exact_when_whole: a whole delegation `n` whose scaled value is the whole number `m` becomes exactly `m` -/
 theorem slash_exact_when_whole {c c' : Chain} {v : String} {p : Dec} (hi : SInv c.st)
-    (h : sudoSlash c v p = .ok c') (d : Addr) (n m : Nat) (vi : ValInfo) (hv : get? c.st.vinfo v = some vi)
-    (hn : stakeOf c.st d v = Dec.ofNat n) (hle : n ≤ vi.stake) (hm : n * (remOf p).atomics = Dec.ONE * m) :
+    (h : sudoSlash c v p = .ok c') (d : Addr) (n m : Nat)
+    (hn : stakeOf c.st d v = Dec.ofNat n) (hm : n * (remOf p).atomics = Dec.ONE * m) :
     stakeOf c'.st d v = Dec.ofNat m ∧ (stakeOf c'.st d v).floor = m := by
-  have ef := slash_effect hi h
-  obtain ⟨vi0, vi', hv0, _, _, hnz, hz⟩ := ef.total
-  rw [hv] at hv0; simp only [Option.some.injEq] at hv0; subst hv0
+  have ex := slash_scales_exact hi h
   have hmul : Dec.mul (Dec.ofNat n) (remOf p) = Dec.ofNat m := by
     apply Dec.ext'
     simp only [Dec.mul, Dec.ofNat]
     rw [Nat.mul_assoc, hm, Nat.mul_div_cancel_left _ Dec.ONE_pos]
   have hfl : (Dec.ofNat m).floor = m := by
     simp only [Dec.floor, Dec.ofNat]; exact Nat.mul_div_cancel_left _ Dec.ONE_pos
-  by_cases e : Dec.mulFloor vi.stake (remOf p) = 0
-  · -- the validator total floors to zero: then m = 0 as well
+  by_cases e : scaledTotal c.st.stakes v (remOf p) / Dec.ONE = 0
+  · obtain ⟨hz, hlt⟩ := (ex.2 e).2 d
+    rw [hn, hmul] at hlt
     have hm0 : m = 0 := by
-      have h1 : Dec.mulFloor n (remOf p) ≤ Dec.mulFloor vi.stake (remOf p) := by
-        unfold Dec.mulFloor
-        exact Nat.div_le_div_right (Nat.mul_le_mul_right _ hle)
-      have h2 : Dec.mulFloor n (remOf p) = m := by
-        unfold Dec.mulFloor; rw [hm, Nat.mul_div_cancel_left _ Dec.ONE_pos]
-      omega
-    have : stakeOf c'.st d v = Dec.zero := by simp [stakeOf, curShares, hz e d, Shares.dflt]
+      simp only [Dec.ofNat] at hlt
+      cases m with
+      | zero => rfl
+      | succ k =>
+        exfalso
+        have : Dec.ONE * 1 ≤ Dec.ONE * (k + 1) := Nat.mul_le_mul_left _ (by omega)
+        omega
     subst hm0
-    refine ⟨by rw [this]; apply Dec.ext'; simp [Dec.zero, Dec.ofNat], by rw [this]; exact zero_floor⟩
-  · rw [hnz e d, hn, hmul]; exact ⟨rfl, hfl⟩
+    rw [hz]
+    exact ⟨by apply Dec.ext'; simp [Dec.zero, Dec.ofNat], zero_floor⟩
+  · rw [ex.1 e d, hn, hmul]; exact ⟨rfl, hfl⟩
 
 /-- C16 frame: other validators' records and totals, the bank, withdraw addresses and parameters are untouched;
 pending unbondings of other validators are untouched, those of `v` become `⌊amount·(1−p)⌋` -/
